@@ -37,7 +37,10 @@ def serialize_json(
     primary = elements[0]
     object_classes = get_object_classes(*elements)
     serialize = partial(
-        _serialize_element, object_refs=True, definitions=definitions
+        _serialize_element,
+        object_refs=True,
+        definitions=definitions,
+        root=primary,
     )
     schema: Dict[str, Any] = {
         **serialize(primary),
@@ -60,6 +63,7 @@ def _serialize_element(
     element: Element,
     object_refs: bool = False,
     definitions: Dict[str, Any] = None,
+    root: Element = None,
 ):
     """Convert a schema element to a JSON Schema dictionary.
 
@@ -97,7 +101,7 @@ def _serialize_element(
     if isinstance(element, ObjectMeta):
         schema["title"] = element.__name__
     return _serialize_recursive(
-        schema, object_refs=object_refs, definitions=definitions
+        schema, object_refs=object_refs, definitions=definitions, root=root
     )
 
 
@@ -113,22 +117,34 @@ _TYPE_MAPPING = {
 
 
 def _serialize_recursive(
-    data: Any, object_refs: bool = False, definitions: Dict[str, Element] = None
+    data: Any,
+    object_refs: bool = False,
+    definitions: Dict[str, Element] = None,
+    root: Element = None,
 ) -> Any:
     """Recursively serialize schema elements."""
     recur = partial(
-        _serialize_recursive, object_refs=object_refs, definitions=definitions
+        _serialize_recursive,
+        object_refs=object_refs,
+        definitions=definitions,
+        root=root,
     )
     if isinstance(data, _Property):
         data = data.element
     if isinstance(data, ObjectMeta) and object_refs:
+        if data is root:
+            # The top-level schema is not a member of ``definitions``.
+            return {"$ref": "#"}
         return {"$ref": f"#/definitions/{data.__name__}"}
     if isinstance(data, Element):
         return _from_definitions(
             definitions,
             data,
             _serialize_element(
-                data, object_refs=object_refs, definitions=definitions
+                data,
+                object_refs=object_refs,
+                definitions=definitions,
+                root=root,
             ),
         )
     if not isinstance(data, (list, dict)):
